@@ -615,6 +615,8 @@ fn c14() {
     let key = lkv(PasetoSymmetricKey::<V4, Local>::from(key32(1)));
     let vals = vec![json!("s"), json!("Zo\u{eb} M\u{fc}ller \u{1F511}"), json!(5), json!(-7), json!(1.5), json!(true), json!(null), json!([1, "a", null]), json!({"k": "v"}), json!({"n": {"n": 1}}), json!({"a": {"b": [1, {"c": null}]}}), json!({}), json!([]), json!(""), json!({"x": 1, "y": 2}),
         json!("\u{feff}"), json!("\u{feff}lead"), json!("mid\u{feff}dle"), json!("\u{200b}\u{2028}\u{2029}"), json!("nul\u{0}byte"), json!("q\"uote \\ back\nline\ttab"), json!(" padded "), json!({"\u{feff}k": "\u{feff}v"}), json!(["\u{feff}"]), json!(9007199254740993i64), json!(-0.5), json!(1e-7), json!(u64::MAX)];
+    for (fv, want) in [(0.1f32, 0.1f64), (1.5, 1.5), (2.25, 2.25), (0.3, 0.3), (1e-3, 0.001), (16777217.0, 16777216.0)] { let mut b = GenericBuilder::<V4, Local>::default(); b.set_claim(CustomClaim::try_from(("f", fv)).unwrap()); b.set_claim(CustomClaim::try_from(("v", vec![fv, fv])).unwrap());
+        if let Ok(t) = b.try_encrypt(&key) { match GenericParser::<V4, Local>::default().parse(lk(&t), key) { Ok(j) => { if j != json!({"f": want, "v": [want, want]}) { return wit(format!("C14 an f32 claim {fv} (short decimal form {want}) set directly and inside a Vec comes back as {j}")); } } Err(e) => return wit(format!("C14 parse failed for an f32 claim: {e}")) } } }
     let keys = ["a", "n", "k", "scope", "\u{e9}\u{1F511}", "x", "\u{feff}", "k\u{feff}", " k", "k ", "K", "a.b"];   // non-empty keys only (C14 quantifies over non-empty keys; set_claim documents that it ignores an empty key)
     for k in keys { for v in &vals { for rounds in 1..=2 {
         let mut b = GenericBuilder::<V4, Local>::default();
@@ -673,6 +675,11 @@ fn c15() {
         exp!("scope=\"\" (token has scope=admin)", CustomClaim::try_from(("scope", "")).unwrap(), false);
         exp!("empty=\"\" (token has empty=\"\")", CustomClaim::try_from(("empty", "")).unwrap(), true);
         exp!("missing=\"\" (absent)", CustomClaim::try_from(("missing", "")).unwrap(), false); } }
+    { let t_null = v4tok("{\"nickname\":null,\"aud\":\"x\"}").0;
+      for layer in 0..2 { let r = if layer == 0 { let mut p = GenericParser::<V4, Local>::default(); p.check_claim(CustomClaim::try_from(("nickname", None::<String>)).unwrap()); p.parse(lk(&t_null), key).is_ok() } else { let mut p = PasetoParser::<V4, Local>::default(); p.check_claim(CustomClaim::try_from(("nickname", None::<String>)).unwrap()); p.parse(lk(&t_null), key).is_ok() };
+          if r { return wit(format!("C15 {} expecting nickname (value null) accepts a token whose nickname is an explicit JSON null: a null claim is not present", if layer == 0 { "GenericParser" } else { "PasetoParser" })); }
+          let r2 = if layer == 0 { let mut p = GenericParser::<V4, Local>::default(); p.check_claim(CustomClaim::try_from(("nickname", "bob")).unwrap()); p.parse(lk(&t_null), key) } else { let mut p = PasetoParser::<V4, Local>::default(); p.check_claim(CustomClaim::try_from(("nickname", "bob")).unwrap()); p.parse(lk(&t_null), key) };
+          match r2 { Ok(_) => return wit("C15 expecting nickname=bob accepts a token whose nickname is null".into()), Err(e) => { if !e.to_string().to_lowercase().contains("missing") && !format!("{e:?}").contains("Missing") { return wit(format!("C15 expecting nickname=bob on a token whose nickname is null is reported as {e:?}, not as a missing claim")); } } } } }
     // large integers are compared exactly
     { let t_n = v4tok("{\"uid\":9007199254740993,\"neg\":-9007199254740993,\"big\":18446744073709551615}").0;
       for (desc, claim, acc) in [("uid=9007199254740993", CustomClaim::try_from(("uid", 9007199254740993u64)).unwrap(), true), ("uid=9007199254740992 (differs by one above 2^53)", CustomClaim::try_from(("uid", 9007199254740992u64)).unwrap(), false), ("big=18446744073709551615", CustomClaim::try_from(("big", u64::MAX)).unwrap(), true), ("big=18446744073709551614", CustomClaim::try_from(("big", u64::MAX - 1)).unwrap(), false)] {
@@ -996,6 +1003,12 @@ fn layer_matrix(pid: &str) {
                 if is(&["C03"]) { let parts: Vec<&str> = t.split('.').collect(); if let Some(d) = R::unb64(parts[2]) { let n = d.len(); for pos in [0usize, n / 2, n - 1] { let mut e = d.clone(); e[pos] ^= 0x01; let mut t2 = format!("{}.{}.{}", parts[0], parts[1], R::b64(&e)); if parts.len() == 4 { t2.push('.'); t2.push_str(parts[3]); }
                     let mut gp = GenericParser::<$V, $P>::default(); if let Some(f) = fo { gp.set_footer(Footer::from(f)); } mx_ia!($ia, gp, ia);
                     match catch_unwind(AssertUnwindSafe(|| gp.parse(lk(&t2), pkey))) { Ok(Ok(j)) => return wit(format!("C03 GenericParser<{}> accepts an altered token (bit 0 of decoded byte {pos}/{n} flipped) -> {j}", $name)), Ok(Err(e)) => { if !matches!(e, GenericParserError::CipherError { .. }) { return wit(format!("C03 GenericParser<{}> reports an altered token (byte {pos}/{n}) as {e:?} instead of a cipher error: content was looked at before authentication", $name)); } } Err(_) => return wit(format!("C03 GenericParser<{}> panics on an altered token (byte {pos}/{n})", $name)) } } } }
+                if is(&["C16"]) { use std::sync::atomic::{AtomicUsize, Ordering}; static SEEN: AtomicUsize = AtomicUsize::new(0);
+                    fn count(_k: &str, _v: &serde_json::Value) -> Result<(), PasetoClaimError> { SEEN.fetch_add(1, Ordering::SeqCst); Ok(()) }
+                    let parts: Vec<&str> = t.split('.').collect(); if let Some(d) = R::unb64(parts[2]) { let n = d.len(); for pos in [n / 2, n - 1] { let mut e = d.clone(); e[pos] ^= 0x20; let mut t2 = format!("{}.{}.{}", parts[0], parts[1], R::b64(&e)); if parts.len() == 4 { t2.push('.'); t2.push_str(parts[3]); }
+                        let mut gp = GenericParser::<$V, $P>::default(); if let Some(f) = fo { gp.set_footer(Footer::from(f)); } mx_ia!($ia, gp, ia); gp.validate_claim(AudienceClaim::from("customers"), &count);
+                        SEEN.store(0, Ordering::SeqCst); let r = gp.parse(lk(&t2), pkey);
+                        if SEEN.load(Ordering::SeqCst) != 0 || r.is_ok() { return wit(format!("C16 GenericParser<{}>: on a token with decoded byte {pos}/{n} altered the validator ran {} time(s) and parse accepted = {} (a validator must only ever see authenticated values)", $name, SEEN.load(Ordering::SeqCst), r.is_ok())); } } } }
                 if is(&["C15"]) { let mut gp = GenericParser::<$V, $P>::default(); if let Some(f) = fo { gp.set_footer(Footer::from(f)); } mx_ia!($ia, gp, ia); gp.check_claim(AudienceClaim::from("customers")).check_claim(CustomClaim::try_from(("n", 5)).unwrap()); if gp.parse(t, pkey).is_err() { return wit(format!("C15 GenericParser<{}> expecting aud=customers,n=5 rejects a token that carries them", $name)); }
                     for (d, bad) in [("aud=Customers", 0), ("n=6", 1), ("missing=1", 2)] { let mut gp = GenericParser::<$V, $P>::default(); if let Some(f) = fo { gp.set_footer(Footer::from(f)); } mx_ia!($ia, gp, ia); match bad { 0 => { gp.check_claim(AudienceClaim::from("Customers")); } 1 => { gp.check_claim(CustomClaim::try_from(("n", 6)).unwrap()); } _ => { gp.check_claim(CustomClaim::try_from(("missing", 1)).unwrap()); } }
                         if gp.parse(t, pkey).is_ok() { return wit(format!("C15 GenericParser<{}> expecting {d} accepts a token with aud=customers,n=5", $name)); } } }
@@ -1036,6 +1049,20 @@ fn layer_matrix(pid: &str) {
                 if catch_unwind(AssertUnwindSafe(|| { let _ = GenericParser::<$V, $P>::default().parse(lk(&t), pkey); let _ = PasetoParser::<$V, $P>::default().parse(lk(&t), pkey); let mut g = GenericParser::<$V, $P>::default(); g.set_footer(Footer::from("foo")); let _ = g.parse(lk(&t), pkey); })).is_err() { return wit(format!("C09 GenericParser/PasetoParser<{}>::parse panics on token {t:?}", $name)); } } } }
     }} }
     macro_rules! mx_ia { (true, $obj:ident, $ia:expr) => { if let Some(i) = $ia { $obj.set_implicit_assertion(ImplicitAssertion::from(i)); } }; (false, $obj:ident, $ia:expr) => { let _ = &$ia; }; }
+    if is(&["C07"]) {
+        // an authentic local token of version X presented verbatim (and relabelled) to the PARSERS of every other version, same 32 key bytes
+        let mut toks: Vec<(u8, String)> = vec![];
+        { let mut b = GenericBuilder::<V1, Local>::default(); b.set_claim(AudienceClaim::from("a")); if let Ok(t) = b.try_encrypt(lkv(PasetoSymmetricKey::<V1, Local>::from(key32(1)))) { toks.push((1, t)); } }
+        { let mut b = GenericBuilder::<V2, Local>::default(); b.set_claim(AudienceClaim::from("a")); if let Ok(t) = b.try_encrypt(lkv(PasetoSymmetricKey::<V2, Local>::from(key32(1)))) { toks.push((2, t)); } }
+        { let mut b = GenericBuilder::<V3, Local>::default(); b.set_claim(AudienceClaim::from("a")); if let Ok(t) = b.try_encrypt(lkv(PasetoSymmetricKey::<V3, Local>::from(key32(1)))) { toks.push((3, t)); } }
+        { let mut b = GenericBuilder::<V4, Local>::default(); b.set_claim(AudienceClaim::from("a")); if let Ok(t) = b.try_encrypt(lkv(PasetoSymmetricKey::<V4, Local>::from(key32(1)))) { toks.push((4, t)); } }
+        for (x, t) in &toks { for y in 1..=4u8 { if *x == y { continue; } for (how, tt) in [("verbatim", t.clone()), ("header rewritten", t.replacen(&format!("v{x}.local."), &format!("v{y}.local."), 1))] { let tt = lk(&tt);
+            let (g, p) = match y { 1 => { let k = lkv(PasetoSymmetricKey::<V1, Local>::from(key32(1))); (GenericParser::<V1, Local>::default().parse(tt, k).is_ok(), PasetoParser::<V1, Local>::default().parse(tt, k).is_ok()) }
+                                   2 => { let k = lkv(PasetoSymmetricKey::<V2, Local>::from(key32(1))); (GenericParser::<V2, Local>::default().parse(tt, k).is_ok(), PasetoParser::<V2, Local>::default().parse(tt, k).is_ok()) }
+                                   3 => { let k = lkv(PasetoSymmetricKey::<V3, Local>::from(key32(1))); (GenericParser::<V3, Local>::default().parse(tt, k).is_ok(), PasetoParser::<V3, Local>::default().parse(tt, k).is_ok()) }
+                                   _ => { let k = lkv(PasetoSymmetricKey::<V4, Local>::from(key32(1))); (GenericParser::<V4, Local>::default().parse(tt, k).is_ok(), PasetoParser::<V4, Local>::default().parse(tt, k).is_ok()) } };
+            if g || p { return wit(format!("C07 authentic v{x}.local token presented {how} to the v{y}.local parsers with the same key bytes: GenericParser accepts = {g}, PasetoParser accepts = {p}")); } } } }
+    }
     let (kp, pk) = R::ed_keypair(9); let (_k2, pk2) = R::ed_keypair(10); let k64 = lkv(Key::<64>::from(kp)); let k32 = lkv(Key::<32>::from(pk)); let k32b = lkv(Key::<32>::from(pk2));
     one!(V1, Local, "V1,Local", lkv(PasetoSymmetricKey::<V1, Local>::from(key32(1))), lkv(PasetoSymmetricKey::<V1, Local>::from(key32(1))), lkv(PasetoSymmetricKey::<V1, Local>::from(key32(2))), try_encrypt, false);
     one!(V2, Local, "V2,Local", lkv(PasetoSymmetricKey::<V2, Local>::from(key32(1))), lkv(PasetoSymmetricKey::<V2, Local>::from(key32(1))), lkv(PasetoSymmetricKey::<V2, Local>::from(key32(2))), try_encrypt, false);
